@@ -151,6 +151,7 @@ type Opts struct {
 	Interval     time.Duration
 	CaptureDumps bool
 	SmallWindows bool // tiny NACK/rtx windows so goroutines collide / eviction happens
+	HighRates    bool // pacers / estimators start far above what the workloads send
 }
 
 func pickInterval(r *vf.Rand, o Opts, defaults ...time.Duration) time.Duration {
@@ -275,6 +276,9 @@ func Build(r *vf.Rand, k Kind, o Opts) (*Built, error) {
 		f, err = flexfec.NewFecInterceptor(flexfec.NumMediaPackets(b.FECMedia), flexfec.NumFECPackets(b.FECRepair))
 	case CCNoOpPacer, CCLeakyBucket:
 		initial := r.Pick(100_000, 1_000_000, 10_000_000)
+		if o.HighRates {
+			initial = 20_000_000
+		}
 		b.Desc = fmt.Sprintf("%s(initial=%d)", k, initial)
 		cf, e := cc.NewInterceptor(func() (cc.BandwidthEstimator, error) {
 			opts := []gcc.Option{gcc.SendSideBWEInitialBitrate(initial), gcc.WithLoggerFactory(lf)}
@@ -289,6 +293,9 @@ func Build(r *vf.Rand, k Kind, o Opts) (*Built, error) {
 		f, err = cf, e
 	case Pacing:
 		b.PacingRate = r.Pick(1_000_000, 10_000_000, 100_000_000)
+		if o.HighRates {
+			b.PacingRate = 100_000_000
+		}
 		iv := time.Duration(r.Pick(1, 5, 10)) * time.Millisecond
 		b.Interval = iv
 		b.Desc = fmt.Sprintf("pacing(rate=%d,int=%v)", b.PacingRate, iv)
